@@ -89,6 +89,7 @@ func c17(c *core.Check) {
 	c.Explain = "Each routine of package matrix is normalised, without executing it, to a polynomial in its inputs (global value numbering over SSA, exact rational coefficients, sin/cos/tan uninterpreted) and compared with the specification matrix of CSS Transforms / SVG; in-place operations are compared with right multiplication by the corresponding constructor; the CSS and SVG plumbing (vocabulary, arity, argument order, left-to-right composition, transform-origin conjugation, degree/radian factors, angle-unit table) is checked on the AST/SSA. Float rounding and overflow are outside the abstraction."
 	c17Determinant(c)
 	c17Computed(c)
+	c17ZeroAngles(c)
 	c.Assume = []string{"float32/float64 conversions are treated as identity", "the group laws follow from the laws of 2x3 affine matrices once each routine equals its specification matrix (mathematics, not re-proved)"}
 
 	r1 := c.Rule("R1", "matrix package: Translation, Scaling, Rotation, Skew, Identity, New, Determinant, mult/Mul/Mul3, LeftMultBy, RightMultBy, Apply, Invert and the in-place Translate/Scale/Rotate/Skew have the specification normal forms", 16)
@@ -965,5 +966,59 @@ func c17Computed(c *core.Check) {
 	}
 	for _, w := range ws {
 		r.Fail("html/tree.transforms | "+p.StmtTextAt(fn, w.Instr.Pos()), p.Pos(w.Instr.Pos()), fmt.Sprintf("%s %s: the matrix of every other element matched by the same rule is built from this element's pixel values", w.What, w.Via))
+	}
+}
+
+// c17ZeroAngles: an angle of zero is an angle.  The validator of transform functions accepts a rotate()/skew()
+// argument whenever getAngle recognised an angle; it never compares the angle's value with a constant (a test
+// `angle != 0`, the Python truthiness of the original, rejects rotate(0deg) and with it the whole declaration).
+func c17ZeroAngles(c *core.Check) {
+	p := c.Prog
+	r := c.Rule("R7", "every angle is accepted: in the validator of transform functions no condition compares the value returned by getAngle with a constant — acceptance depends only on whether the argument is an angle (rotate(0deg), skewX(0deg) are valid; refusing them drops the whole transform declaration)", 1)
+	ga := p.Fn("css/validation", "getAngle")
+	if ga == nil {
+		r.Anchor("css/validation.getAngle")
+		return
+	}
+	n := 0
+	for _, fn := range p.FuncsOfPkg("css/validation") {
+		if fn.Blocks == nil {
+			continue
+		}
+		fn := fn
+		var values []ssa.Value
+		core.Instrs(fn, func(in ssa.Instruction) {
+			if ex, ok := in.(*ssa.Extract); ok && ex.Index == 0 {
+				if call, ok := ex.Tuple.(*ssa.Call); ok && call.Call.StaticCallee() == ga {
+					values = append(values, ex)
+				}
+			}
+		})
+		if len(values) == 0 {
+			continue
+		}
+		n++
+		tested := false
+		bad := ""
+		for _, a := range core.CondAtoms(fn) {
+			bo, ok := a.(*ssa.BinOp)
+			if !ok {
+				continue
+			}
+			for _, v := range values {
+				if bo.X == v || bo.Y == v {
+					_, kx := bo.X.(*ssa.Const)
+					_, ky := bo.Y.(*ssa.Const)
+					if kx || ky {
+						tested = true
+						bad = bo.String()
+					}
+				}
+			}
+		}
+		r.Cond(!tested, core.FuncName(fn)+" | the angle's value is not tested", p.Pos(fn.Pos()), "accepted whenever getAngle says it is an angle", "the value of the angle is compared with a constant ("+bad+"): `transform: translate(10px, 5px) rotate(0deg)` is ignored as a whole")
+	}
+	if n == 0 {
+		r.Anchor("callers of getAngle in css/validation")
 	}
 }
